@@ -227,6 +227,9 @@ def version_problems(node, out=None) -> list:
                             out.append(f'struct of unknown class {name!r} at offset {node["at"]}')
                         elif not isinstance(ver, int | float) or float(ver) != STRUCT_VERSIONS[name]:
                             out.append(f'{name} written with version {ver!r}, the documented layout is version {STRUCT_VERSIONS[name]}')
+                        # a single object of one of the IX_ classes serialises itself: it is preceded by the marker byte 32; nothing else is
+                        if len(node['data']) == 1 and name.startswith('IX_') != bool(node.get('self_serialising')):
+                            out.append(f'{name} at offset {node["at"]}: ' + ('the self-serialising marker (32) is missing' if name.startswith('IX_') else 'unexpected self-serialising marker (32)'))
                 for v in st.values():
                     version_problems(v, out)
         elif node['tag'] == 23:
